@@ -365,6 +365,15 @@ def FileWF' (cfg : Cfg) (m : Nat) (f : List Tag) : Bool :=
         && compile cfg f == f && compileB cfg f == f
         && cfg.managed "ENTITIES"
 
+/-- the requested types contain the linked structures completely (true for SUPPORTED_TYPES, `types=None`) -/
+def ReqLinked (cfg : Cfg) : Prop :=
+  cfg.req "POLYLINE" = true ∧ cfg.req "INSERT" = true ∧ cfg.req "VERTEX" = true ∧ cfg.req "ATTRIB" = true ∧
+    cfg.req "SEQEND" = true
+
+/-- what the iterdxf readers deliver of a list of linked entities: requested type, not paperspace, truthy -/
+def delivered (cfg : Cfg) (es : List Ent) : List Ent :=
+  (es.filter (fun e => cfg.req (dxftype e.main) && !cfg.psp e.main)).filter cfg.truthy
+
 /-- the linked entities of the ENTITIES section of a flat file (`[]` if the file does not parse) -/
 def Spec.linked (cfg : Cfg) (f : List Tag) : List Ent :=
   match parseFile f with
@@ -806,5 +815,15 @@ def exportFile (dup : Bool) (pre : List Section) (written : List Ent) (objects :
   pre.flatMap renderSec
     ++ (tSECTION :: ⟨2, "ENTITIES"⟩ :: (written.flatMap (fun e => e.flat ++ (if dup then e.again else [])) ++ [tENDSEC]))
     ++ (match objects with | some o => renderSec o | none => []) ++ [tEOF]
+
+/-- what an r12writer call may contain -/
+def r12CallOK (cfg : Cfg) : R12Call → Bool
+  | .simple ty a => a.all nz && ty != "SECTION" && ty != "ENDSEC" && ty != "EOF" && (expects cfg (⟨0, ty⟩ :: a)).isNone
+  | .polyline a vs => a.all nz && vs.all (fun v => v.all nz)
+
+/-- what the tag writers are given: the codes of vertices are point codes; coordinates are never comments or EOF -/
+def wtagOK (isPt : Nat → Bool) : WTag → Bool
+  | .single _ _ => true
+  | .vertex c xs => isPt c && (expandPoint c xs 0).all (fun t => t.code != 999 && t != tEOF)
 
 end EzdxfVerif.Readers
